@@ -238,13 +238,19 @@ func (r RemoveIntersections) redirectInDisjunction(visitor *Visitor, schema *ast
 	return nil
 }
 
+// disjunctionHints are the hints under which a struct generated from a union keeps
+// that union: its branches are types like any other, references included.
+var disjunctionHints = []string{ast.HintDiscriminatedDisjunctionOfRefs, ast.HintDisjunctionOfScalars}
+
 // redirectStruct also redirects what a struct generated from a union keeps of it
 // in its hints: the branches and the mapping the (un)marshallers are generated from.
 func (r RemoveIntersections) redirectStruct(visitor *Visitor, schema *ast.Schema, def ast.Type) (ast.Type, error) {
 	// hints can be set by users: the value isn't necessarily a disjunction.
-	if disjunction, ok := def.Hints[ast.HintDiscriminatedDisjunctionOfRefs].(ast.DisjunctionType); ok {
-		if err := r.redirectInDisjunction(visitor, schema, &disjunction); err != nil {
-			return ast.Type{}, err
+	for _, hint := range disjunctionHints {
+		if disjunction, ok := def.Hints[hint].(ast.DisjunctionType); ok {
+			if err := r.redirectInDisjunction(visitor, schema, &disjunction); err != nil {
+				return ast.Type{}, err
+			}
 		}
 	}
 
